@@ -91,6 +91,10 @@ struct LoopContext {
     continue_jumps: Vec<JumpPlaceholder>,
     /// Try depth when this loop started (for finally handling)
     try_depth: usize,
+    /// Block scopes open when this loop / labelled statement started: `break` restores this depth
+    scope_depth: usize,
+    /// Block scopes open at the continue target
+    continue_scope_depth: usize,
     /// Iterator register for for-of loops (for iterator close protocol)
     /// When set, break/return/throw should call iterator.return()
     iterator_reg: Option<Register>,
@@ -258,6 +262,8 @@ impl Compiler {
             continue_target: None,
             continue_jumps: Vec::new(),
             try_depth: self.try_depth,
+            scope_depth: self.builder.scope_depth(),
+            continue_scope_depth: self.builder.scope_depth(),
             iterator_reg,
             label_only: false,
         });
@@ -283,8 +289,10 @@ impl Compiler {
 
         // Start from the current (innermost) context and work backwards
         // Set continue target for the current loop
+        let continue_scope_depth = self.builder.scope_depth();
         if let Some(ctx) = self.loop_stack.get_mut(len - 1) {
             ctx.continue_target = Some(target);
+            ctx.continue_scope_depth = continue_scope_depth;
             all_pending_jumps.append(&mut ctx.continue_jumps);
         }
 
@@ -295,6 +303,7 @@ impl Compiler {
                 // Only propagate if this is a labeled context and it doesn't have a continue target
                 if ctx.label.is_some() && ctx.continue_target.is_none() {
                     ctx.continue_target = Some(target);
+                    ctx.continue_scope_depth = continue_scope_depth;
                     all_pending_jumps.append(&mut ctx.continue_jumps);
                 } else {
                     // Stop propagating if we hit a context that's not a label wrapper
@@ -306,6 +315,8 @@ impl Compiler {
         // Patch all pending continue jumps
         for jump in all_pending_jumps {
             self.builder.patch_jump_to(jump, target as JumpTarget);
+            self.builder
+                .patch_continue_scope_depth(jump, continue_scope_depth);
         }
     }
 
@@ -359,6 +370,11 @@ impl Compiler {
             .get(loop_idx)
             .map(|ctx| ctx.try_depth as u8)
             .unwrap_or(0);
+        let target_scope_depth = self
+            .loop_stack
+            .get(loop_idx)
+            .map(|ctx| ctx.scope_depth as u8)
+            .unwrap_or(0);
 
         // Emit IteratorClose before break if this is a for-of loop
         // Also need to close iterators for any enclosing for-of loops we're breaking out of
@@ -372,6 +388,7 @@ impl Compiler {
         let idx = self.builder.emit(Op::Break {
             target: 0,
             try_depth: target_try_depth,
+            scope_depth: target_scope_depth,
         });
         let jump = JumpPlaceholder {
             instruction_index: idx,
@@ -411,12 +428,14 @@ impl Compiler {
                 self.builder.emit(Op::Continue {
                     target: target as u32,
                     try_depth: target_try_depth,
+                    scope_depth: ctx.continue_scope_depth as u8,
                 });
             } else {
-                // Target not yet known, save placeholder
+                // Target not yet known, save placeholder (target and scope depth are patched later)
                 let idx = self.builder.emit(Op::Continue {
                     target: 0,
                     try_depth: target_try_depth,
+                    scope_depth: 0,
                 });
                 let jump = JumpPlaceholder {
                     instruction_index: idx,
